@@ -304,6 +304,14 @@ impl SignatureContext<'_> {
 
         let amz_date = extract_amz_date(&self.hs)?.ok_or_else(|| invalid_request!("missing header: x-amz-date"))?;
 
+        // the signing key is derived from the date of the request, the credential scope has to name the same date
+        if authorization.credential.date != amz_date.fmt_date().as_str() {
+            return Err(s3_error!(
+                AuthorizationHeaderMalformed,
+                "the date in the credential scope does not match the date of the request"
+            ));
+        }
+
         let is_stream = matches!(amz_content_sha256, Some(AmzContentSha256::MultipleChunks));
 
         let signature = {
